@@ -5,12 +5,26 @@
 (*                                                                           *)
 (* The harness (harness/props/c19_gen.go) runs the real generator and writes *)
 (* for every call the lines                                                  *)
-(*   {"ev":"Call","c":..,"n":..,"entropy":"inf"|"zero"|"finite","pre":b}     *)
+(*   {"ev":"Call","c":..,"n":..,"entropy":"inf"|"zero"|"finite"|"barrier"|   *)
+(*    "transient","reads":j,"bar":k,"pre":b}                                 *)
 (*       c        the concurrency argument, projected to min(c, MaxC)        *)
 (*       n        numPrimes                                                  *)
 (*       entropy  the reader handed to the call: never fails / fails at the  *)
-(*                first byte / fails after some bytes                        *)
+(*                first byte / fails after some bytes / "barrier": exactly j *)
+(*                Read calls succeed, every later one fails, and the failing *)
+(*                Read holds its callers until k of them are inside (k = the *)
+(*                projected concurrency) or the reader is opened otherwise   *)
+(*                (its time limit; the harness, after it has cancelled the   *)
+(*                context): all producers meet the failure at the same time  *)
+(*                "transient": j Read calls succeed, the next one fails, all *)
+(*                later ones succeed again                                   *)
+(*       reads    0 unless entropy is "barrier" or "transient"               *)
+(*       bar      0 unless entropy = "barrier"                               *)
 (*       pre      the context was cancelled before the call                  *)
+(*   {"ev":"BarrierOpen","held":h,"forced":b}   (barrier readers only, and   *)
+(*       only if a caller was inside when the reader opened)                 *)
+(*       h  the callers inside the failing Read at that moment (projected    *)
+(*          like c);  b  the reader was opened before k callers were inside  *)
 (*   {"ev":"Cancel"}            the harness started cancelling the context   *)
 (*                              before it saw the call return                *)
 (*   {"ev":"Return","outcome":"primes"|"cancelled"|"entropy","count":k}      *)
@@ -40,21 +54,24 @@ tvars == <<vars, l, phase>>
 
 TraceInit ==
   /\ l = 1 /\ phase = "idle"
-  /\ InitFor([c |-> 1, n |-> 1, budget |-> Inf, pre |-> FALSE])
+  /\ InitFor([c |-> 1, n |-> 1, budget |-> Inf, pre |-> FALSE, bar |-> 0, heal |-> FALSE])
 
 IsEvent(name) == l <= Len(TraceLog) /\ TraceLog[l].ev = name /\ l' = l + 1
 
 Budget(e) == CASE e.entropy = "inf"    -> Inf
                [] e.entropy = "zero"   -> 0
                [] e.entropy = "finite" -> e.n
+               [] e.entropy \in {"barrier", "transient"} -> e.reads   \* counted in Read calls by the reader: exact
 
 TraceCall ==
   /\ phase = "idle"
   /\ IsEvent("Call")
   /\ LET e == TraceLog[l] IN
        /\ e.c \in 1..MaxC /\ e.n \in 1..3 /\ e.pre \in BOOLEAN
-       /\ e.entropy \in {"inf", "zero", "finite"}
-       /\ ResetFor([c |-> e.c, n |-> e.n, budget |-> Budget(e), pre |-> e.pre])
+       /\ e.entropy \in {"inf", "zero", "finite", "barrier", "transient"}
+       /\ e.reads \in 0..3 /\ e.bar \in 0..e.c
+       /\ (e.entropy \notin {"barrier", "transient"} => e.reads = 0) /\ (e.entropy # "barrier" => e.bar = 0)
+       /\ ResetFor([c |-> e.c, n |-> e.n, budget |-> Budget(e), pre |-> e.pre, bar |-> e.bar, heal |-> (e.entropy = "transient")])
   /\ phase' = "running"
 
 (* what the goroutines do between two observations *)
@@ -67,6 +84,16 @@ TraceCancel ==
   /\ phase = "running"
   /\ IsEvent("Cancel")
   /\ ExtCancel
+  /\ UNCHANGED phase
+
+(* the reader opened while h producers were inside its failing Read *)
+TraceBarrierOpen ==
+  /\ phase = "running"
+  /\ IsEvent("BarrierOpen")
+  /\ LET e == TraceLog[l] IN
+       /\ e.held >= 1 /\ Cardinality(Held) = e.held
+       /\ e.forced \/ BarFull
+  /\ BarOpen
   /\ UNCHANGED phase
 
 TraceReturn ==
@@ -85,12 +112,12 @@ TraceSettled ==
   /\ phase' = "idle"
   /\ UNCHANGED vars
 
-TraceNext == TraceCall \/ TraceHidden \/ TraceCancel \/ TraceReturn \/ TraceSettled
+TraceNext == TraceCall \/ TraceHidden \/ TraceCancel \/ TraceBarrierOpen \/ TraceReturn \/ TraceSettled
 TraceSpec == TraceInit /\ [][TraceNext]_tvars
 
 (* the design invariants, evaluated on every state of every explanation *)
 TraceInv == WaitGroupExact /\ NoLeak /\ NoSendOnClosed /\ ErrSendNeverBlocks /\ ResultCount /\ NoSpuriousError
-            /\ PreCancelled /\ NoEntropyNoPrimes /\ PromptCancelBound
+            /\ PreCancelled /\ NoEntropyNoPrimes /\ PromptCancelBound /\ HeldOnlyAtFailure
 
 (* high-water mark of consumed lines; needs -workers 1 *)
 ASSUME TLCSet(1, 0)
